@@ -11,8 +11,12 @@ structure St where
   contract : UInt32 := 0
   sign : UInt32 := 0
   now : Int := 0
+  remoteBanned : List Bytes := []
   keys : List (String × Bytes) := []        -- key name ↦ key string
   order : List String := []                  -- client names in creation order
+
+def St.env (st : St) (banned : List Bytes) : Env :=
+  { cipher := st.cipher, contractId := st.contract, signature := st.sign, now := st.now, banned := banned }
 
 def St.auth (st : St) : Auth := fun banned ch perm =>
   let env : Env := { cipher := st.cipher, contractId := st.contract, signature := st.sign, now := st.now, banned := banned }
@@ -53,13 +57,15 @@ def renderOut (st : St) (out : Out) (sortAll sortHist : Bool) (drop : Option Str
     some (n ++ "<" ++ "|".intercalate ps))
   if parts.isEmpty then "-" else " ".intercalate parts
 
+/-- the key string of a key name; a name that was never minted is the invalid key "nokey" -/
+def St.keyOf (st : St) (k : String) : Bytes := (st.keys.lookup k).getD (strBytes "nokey")
+
 def St.topic (st : St) (k rest : String) : Option Bytes := do
   let r ← bytesOfHex rest
   if k == "-" then pure r
   else if k == "emitter" then pure (strBytes "emitter" ++ r)
   else
-    let ks ← st.keys.lookup k
-    pure (ks ++ r)
+    pure ((st.keyOf k) ++ r)
 
 def apply (st : St) (name : String) (r : Req) (sortAll sortHist : Bool) (drop : Option String) : St × Ans :=
   let (b, out) := step st.auth st.b name r
@@ -105,15 +111,84 @@ def stepLine (st : St) (ws : List String) (_impl : String) : St × Ans :=
           apply st name (.publish (UInt8.ofNat q) (retain == "1") (UInt16.ofNat mid) t p) false false none
       | _, _, _, _ => (st, bad)
   | ["link", name, mid, nm, k, chan, sub] =>
-      match mid.toNat?, bytesOfHex nm, (if k == "-" then some [] else st.keys.lookup k), bytesOfHex chan with
+      match mid.toNat?, bytesOfHex nm, (if k == "-" then some [] else some (st.keyOf k)), bytesOfHex chan with
       | some mid, some nm, some ks, some chan => apply st name (.link (UInt16.ofNat mid) nm ks chan (sub == "1")) false false none
       | _, _, _, _ => (st, bad)
   | ["presence", name, mid, k, chan, status, changes] =>
-      match mid.toNat?, (if k == "-" then some [] else st.keys.lookup k), bytesOfHex chan with
+      match mid.toNat?, (if k == "-" then some [] else some (st.keyOf k)), bytesOfHex chan with
       | some mid, some ks, some chan =>
           let ch := if changes == "1" then some true else if changes == "0" then some false else none
           apply st name (.presence (UInt16.ofNat mid) ks chan (status == "1") ch) false false none
       | _, _, _ => (st, bad)
+  | ["keyban", name, mid, sk, tk, banned] =>
+      match mid.toNat?, some (st.keyOf sk), some (st.keyOf tk), st.b.conn? name with
+      | some mid, some secret, some target, some c =>
+          if !c.alive then (st, { m := "-" }) else
+          let env := st.env st.b.banned
+          let topic := hexOfBytes (emitterTopic "keyban")
+          let deny : St × Ans := (st, { m := name ++ "<pub:" ++ topic ++ ":J{req=" ++ toString mid ++ ",status=401}|puback:" ++ toString mid })
+          let want := banned == "1"
+          let r := Security.keyban env secret target want
+          if r.2 != 200 then deny else
+          ({ st with b := { st.b with banned := r.1 } },
+           { m := name ++ "<pub:" ++ topic ++ ":J{banned=" ++ toString want ++ ",req=" ++ toString mid ++ ",status=200}|puback:" ++ toString mid })
+      | _, _, _, _ => (st, bad)
+  | ["keygen", name, mid, pk, chan, ty, ttl, newName] =>
+      match mid.toNat?, some (st.keyOf pk), bytesOfHex chan, bytesOfHex ty, ttl.toInt?, st.b.conn? name with
+      | some mid, some parent, some chan, some ty, some ttl, some c =>
+          if !c.alive then (st, { m := "-" }) else
+          let env := st.env st.b.banned
+          let fail (status : Nat) : St × Ans := (st, { m := name ++ "<keygen:status=" ++ toString status ++ "|puback:" ++ toString mid })
+          let access := accessOf ty
+          let expires := expiresOf st.now ttl
+          match env.decrypt parent with
+          | none => fail 401
+          | some pkey =>
+              if pkey.isExpired st.now then fail 401 else
+              -- expected raw key (salt unknown) and response channel
+              let expected : Outcome (Key × Bytes) :=
+                if pkey.isMaster then (createKey env parent chan access expires 0).map (fun k => (k, chan))
+                else if pkey.hasPermission permExtend then extendKey env parent chan c.guid access expires
+                else .err "unauthorized"
+              match expected with
+              | .err e =>
+                  fail (if e == "unauthorized" then 401 else if e == "not-found" then 404
+                        else if e == "bad-request" || e == "target-invalid" || e == "target-too-long" then
+                          (if pkey.isMaster || e == "bad-request" then 400 else 500) else 500)
+              | .panic _ => (st, { m := "panic" })
+              | .ok (k, respChan) =>
+                  -- the implementation's answer carries the minted key: accept it iff it decrypts
+                  -- (under the model cipher) to the expected fields, any salt, expiry within a minute
+                  let fields (i : String) : List (String × String) :=
+                    (i.splitOn ":").filterMap (fun kv => match kv.splitOn "=" with | [a, b] => some (a, b) | _ => none)
+                  let implPart := ((_impl.splitOn "<").getD 1 "").splitOn "|" |>.headD ""
+                  let fs := fields implPart
+                  let get (n : String) : String := (fs.lookup n).getD ""
+                  let keyStr := (bytesOfHex (get "key")).getD []
+                  let okKey := match env.decrypt keyStr with
+                    | some k' =>
+                        k'.master == k.master && k'.contract == k.contract && k'.signature == k.signature &&
+                        k'.permissions == k.permissions && k'.targetPath == k.targetPath && k'.target == k.target &&
+                        (if expires == 0 then k'.expires == 0 else (k'.expires - k.expires).natAbs ≤ 60)
+                    | none => false
+                  let okFields := get "status" == "200" && get "channel" == hexOfBytes respChan &&
+                    get "master" == toString k.master && get "contract" == toString k.contract &&
+                    get "sign" == toString k.signature && get "perms" == toString k.permissions &&
+                    get "path" == toString k.targetPath && get "hash" == toString k.target
+                  if okKey && okFields then
+                    ({ st with keys := (newName, keyStr) :: st.keys }, { m := _impl })
+                  else
+                    (st, { m := s!"{name}<keygen:status=200:channel={hexOfBytes respChan}:key=?:master={k.master}:contract={k.contract}:sign={k.signature}:perms={k.permissions}:path={k.targetPath}:hash={k.target}:expires~{k.expires}|puback:{mid}" })
+      | _, _, _, _, _, _ => (st, bad)
+  | ["restart"] =>
+      ({ st with b := { mode := st.b.mode, banned := st.b.banned }, order := [] }, { m := "ok" })
+  | ["remote-new", _, _, _] => ({ st with remoteBanned := [] }, { m := "ok" })
+  | ["remote-merge"] => ({ st with remoteBanned := st.b.banned }, { m := "ok" })
+  | ["remote-use", k, rest, perm] =>
+      match st.topic k rest, perm.toNat? with
+      | some t, some perm =>
+          (st, { m := toString ((authorize (st.env st.remoteBanned) (parseChannel t) (UInt8.ofNat perm)).isSome) })
+      | _, _ => (st, bad)
   | ["close", name] => apply st name .close true false (some name)
   | ["disc", name] => apply st name .close true false (some name)
   | ["rawclose", name, _] => apply st name .close true false (some name)
